@@ -1598,8 +1598,6 @@ CANONICAL_B = [
 ]
 
 CANONICAL_E = [
-    ("shared_anyof", 5, 7),
-    ("shared_allof", -1, 7),
     ("shared_immset", {"fs": [1, 2]}, {"fs": [3]}),
 ]
 
@@ -1631,7 +1629,7 @@ def gen_cases(rng, tier, scale=1.0):
         if sname in ("array_int", "shared_set", "map_int") or not quick:
             add("A", sname, 3, max_pre=2, cap=120 if quick else 600)
     for sname in A2_SHAPES:
-        for _ in range(reps_a if (not quick or shape(sname).racy) else 1):
+        for _ in range(1 if quick else reps_a):
             add("A", sname, 2, max_pre=max_pre, cap=100 if quick else 500)
         if not quick:
             add("A", sname, 3, max_pre=2, cap=400)
@@ -1641,7 +1639,7 @@ def gen_cases(rng, tier, scale=1.0):
                       "threads": [{"op": "setattr", "field": fl[0], "value": v0},
                                   {"op": "setattr", "field": fl[1], "value": v1}]})
     reps_e = max(1, int((1 if quick else 3) * scale))
-    for sname in (rng.sample(E_SHAPES, 13) if quick else E_SHAPES):
+    for sname in (rng.sample(E_SHAPES, 10) if quick else E_SHAPES):
         for _ in range(reps_e):
             flat = sname in ("anyof", "oneof", "allof", "notfield") or sname.startswith("shared_")
             add("E", sname, 2, max_pre=max_pre, cap=100 if quick else 320, **({"yield": "sitelines"} if flat else {}))
@@ -1734,7 +1732,7 @@ def gen_cases(rng, tier, scale=1.0):
     # the field implementations / generic __set__, _validate (table independent) + line-level sampling
     for sname in ENUM_SHAPES:
         add_ops("E", sname, [rng.choice(["setattr", "construct"]) for _ in range(2)], max_pre=1 if quick else 2,
-                cap=150 if quick else 300, **{"yield": "fieldlines"})
+                cap=100 if quick else 300, **{"yield": "fieldlines"})
         if not quick or rng.random() < 0.5:
             add_ops("B", sname, [rng.choice(["setattr", "construct", "deserialize"]) for _ in range(3 if not quick else 2)],
                     max_pre=max_pre, nsched=20 if quick else 40)
@@ -1744,7 +1742,7 @@ def gen_cases(rng, tier, scale=1.0):
         if sname.startswith("twin_"):
             add_twin("E", sname, 2, max_pre=1, cap=200, **{"yield": "fieldlines"})
         else:
-            add("E", sname, 2, max_pre=1, cap=200, **{"yield": "fieldlines"})
+            add("E", sname, 2, max_pre=1, cap=120 if quick else 200, **{"yield": "fieldlines"})
     # collect-all error mode for the whole schedule: a deserializing thread (multi-field wrapper with a nested-structure
     # option) against a constructing thread whose input has several invalid fields; exception class and full message are
     # compared with the sequential result, and the process-wide mode flags must be what they were
@@ -1833,7 +1831,7 @@ def gen_cases(rng, tier, scale=1.0):
         for ops in ([["deserialize", "deserialize"]] if quick else [["deserialize", "deserialize"], ["serialize", "serialize"]]):
             add_ops("E", sname, ops, max_pre=1, cap=400, **{"yield": "siteops"})
     reps_b = max(1, int((1 if quick else 4) * scale))
-    for sname in (rng.sample(ALL_SHAPES, 14) if quick else ALL_SHAPES):
+    for sname in (rng.sample(ALL_SHAPES, 11) if quick else ALL_SHAPES):
         for _ in range(reps_b):
             add("B", sname, 3 if rng.random() < 0.2 else 2, max_pre=max_pre, nsched=20 if quick else 35)
     return cases
